@@ -112,6 +112,7 @@ type Op struct {
 	Ctx    int    `json:"ctx,omitempty"`  // index+1 into Ctxs; 0 = context.Background()
 	Expr   string `json:"expr,omitempty"` // eval
 	Late   bool   `json:"late,omitempty"` // get/getall: dereference containers only after the final join
+	Raw    bool   `json:"raw,omitempty"`  // get/getall: read Variable.Object() with a bounded, cycle-safe walker instead of Variable.Value()
 }
 
 // Op kinds.
